@@ -71,7 +71,7 @@ func addKitchenResources(s *Schema) {
 			action("poke", true, &str)}, []string{"id"}, nil)
 	// 7. simple resource
 	res("ks.single", []PathSeg{{Name: "single"}}, &thing,
-		[]MethodSpec{rest("get", false), rest("update", false), rest("partial_update", false), rest("delete", false), action("reset", false, nil, Opt("hard", P("bool")))}, []string{"id"}, []string{"createdBy"})
+		[]MethodSpec{rest("get", false), rest("update", false), rest("partial_update", false), rest("delete", false), action("reset", false, nil, Opt("hard", P("bool")))}, []string{"id"}, []string{"createdBy", "leaf"})
 	// 8. action set
 	res("ks.acts", []PathSeg{{Name: "acts"}}, nil,
 		[]MethodSpec{action("echo", false, &str, F("text", str)), action("noop", false, nil), action("mk", false, &leaf, F("s", str), Opt("n", i32))}, nil, nil)
